@@ -157,7 +157,8 @@ PROPS['C15'].update(engines=[eng_c15.engine], extended=[eng_c15.engine], replaye
     rule='step-model cases (clock) + eng_c15: each scenario advanced one step at a time, by random splits of crank calls, by LocalSimulationRunner.run and by LocalSimulationRunner.step until it refuses; evaluations = scenario runs')
 
 import eng_c19
-PROPS['C19'].update(engines=[eng_c19.engine], extended=[eng_c19.engine], replayers=[eng_c19.replayer])
+import eng_reports
+PROPS['C19'].update(engines=[eng_c19.engine, eng_reports.engine], extended=[eng_c19.engine, eng_reports.engine], replayers=[eng_c19.replayer, eng_reports.replayer])
 
 import eng_c20
 import eng_c02
